@@ -16,13 +16,13 @@
     ([GuardOld]: drop whenever nextTickTime >= now).
     Projection of the executable whole-simulation model of Model.v onto [cstep]:
     proved ([c09_world_projects_partial], C09/Project.v) for worlds with ONE connection
-    into which every port is plugged, any components and scripts, under the engine
-    contract checked on the run.  Not proved: several connections (the index mapping
-    between global ports and a connection's local port list), the engine contract as an
-    invariant of the world model, and the projection onto [dstep] (clause 2); those
+    into which every port is plugged, any components and scripts; the engine contract it
+    needs is itself proved to be an invariant of the world model (C09/Contract.v).
+    Not proved: several connections (the index mapping between global ports and a
+    connection's local port list) and the projection onto [dstep] (clause 2); those
     remain covered by the exact trace tie and the quiescent-state scan on every run. *)
 From Akita Require Import Lib.Base Lib.Fifo Lib.Port Lib.Conn C10.Model C10.Exec C10.Proofs
-     C09.Model C09.Proofs C09.Project.
+     C09.Model C09.Proofs C09.Project C09.Contract.
 Local Open Scope N_scope.
 
 (** Regression (guard before the fix): a concrete topology (two connections bridged by an
@@ -125,29 +125,39 @@ Print Assumptions c09_draining_component_clean.
 
 (** Projection (partial: one-connection worlds).  For every world built the way the
     harness builds it — any ports (capacities, owners) all plugged into one direct
-    connection of period >= 1, any scripted ticking / event-driven components — every run
-    of the executable model that respects the engine contract ([run_ok]: component events
-    are primary and the connection's secondary; nothing is dispatched before the current
-    time or while an earlier tick of the connection is pending — what C01 proves of the
-    engine) IS a run of the abstract connection system ([csteps], related by [R]); hence
-    the invariant [cinv] holds of it, and if it ends un-halted with no tick event of the
-    connection queued, no port holds a deliverable message.
-    Missing for the full statement: worlds with several connections; [run_ok] as a proved
-    invariant instead of a checked hypothesis; the same for draining components ([dstep]). *)
+    connection, any scripted ticking / event-driven components, clock periods >= 1 —
+    every run of the executable model IS a run of the abstract connection system
+    ([csteps], related by [R]); hence the invariant [cinv] holds of it, and if it ends
+    un-halted with no tick event of the connection queued, no port holds a deliverable
+    message.  The engine contract the projection needs ([run_ok]: component events are
+    primary and the connection's secondary; nothing is dispatched before the current time
+    or while an earlier tick of the connection is pending) is no longer a hypothesis:
+    [c09_engine_contract_invariant] derives it from the model's own dispatch order and
+    from the fact that every scheduling path schedules at or after the current time.
+    Missing for the full statement: worlds with several connections; the same projection
+    for draining components ([dstep], clause 2). *)
 Theorem c09_world_projects_partial : forall ports comps period fuel tr,
-  1 <= period -> Forall (fun p : Z * Z * nat * nat => snd p = 0%nat) ports ->
+  1 <= period -> Forall (fun d => 1 <= d_period d) comps ->
+  Forall (fun p : Z * Z * nat * nat => snd p = 0%nat) ports ->
   let w0 := kick (build GuardNew ports comps [period]) in
-  run_ok fuel w0 = true ->
   let wf := snd (fst (run fuel w0 tr)) in
   w_halt wf = false -> w_sec wf = [] ->
   (exists acts st', csteps GuardNew (st_init (w_ports w0) period) acts = Some st' /\ R wf st' /\ cinv st') /\
   forall k, deliv (w_ports wf) k = false.
-Proof.
-  intros ports comps period fuel tr Hp Hall w0 Hok wf Hnh Hq.
-  destruct (built_world ports comps period Hp Hall) as (Hw & Hr & Hi). fold w0 in Hw, Hr, Hi.
-  exact (world_projects fuel w0 _ tr Hw Hr Hi Hok Hnh Hq).
-Qed.
+Proof. exact built_world_projects. Qed.
 Print Assumptions c09_world_projects_partial.
+
+(** The engine contract is an invariant: in every world satisfying the queue invariant
+    [QI] (both queues sorted by time, no event before the current time, component events
+    primary / connection events secondary, periods >= 1) — in particular every built
+    one-connection world — every run satisfies [run_ok]. *)
+Theorem c09_engine_contract_invariant :
+  (forall fuel w, QI w -> run_ok fuel w = true) /\
+  (forall ports comps period, 1 <= period -> Forall (fun d => 1 <= d_period d) comps ->
+     Forall (fun p : Z * Z * nat * nat => snd p = 0%nat) ports ->
+     QI (kick (build GuardNew ports comps [period]))).
+Proof. split; [exact run_ok_holds|exact built_world_qi]. Qed.
+Print Assumptions c09_engine_contract_invariant.
 
 (** non-vacuity: a ticking sender, an event-driven relay and a ticking receiver on one
     connection; the run respects the contract and ends un-halted with empty queues *)
@@ -158,11 +168,14 @@ Example c09_world_projects_nonvacuous :
                 mk_compd KEvent 1000 [None; None] [Some (2%nat, 4); None] [];
                 mk_compd KTick 1000 [Some 1%nat] [None] []] in
   let w0 := kick (build GuardNew ports comps [1000]) in
-  run_ok 200 w0 = true /\
+  Forall (fun d => 1 <= d_period d) comps /\
   let '(tr, wf, done) := run 200 w0 [] in
   done = true /\ w_halt wf = false /\ w_prim wf = [] /\ w_sec wf = [] /\ (10 <= length tr)%nat /\
   Forall (fun p : Z * Z * nat * nat => snd p = 0%nat) ports.
-Proof. vm_compute. repeat split; try reflexivity; try lia. repeat constructor. Qed.
+Proof.
+  split; [repeat constructor; cbn; lia|].
+  vm_compute. repeat split; try reflexivity; try lia. repeat constructor.
+Qed.
 
 (** Non-vacuity: the hypotheses are met by a real run of the abstract system — a send,
     the tick that delivers it, a retrieval; and the scheduler invariant holds initially. *)
